@@ -25,7 +25,7 @@ func (x *Exec) loopInvariants(st *State, fr *Frame, l *Loop, phase string, assum
 	ls := x.P.specs.Loops[key]
 	snap := fr.loopSnap[l.Head]
 	fr.curLoop = l
-	env := &Env{st: st, vars: map[string]Val{}, pkg: x.pkgOf(fr.fn), old: x.entry, fr: fr}
+	env := &Env{st: st, vars: map[string]Val{}, pkg: x.pkgOf(fr.fn), old: x.entry, fr: fr, localsFirst: true}
 	if fr.parent != nil {
 		env.old = snap // inlined callee: old() refers to loop entry (no own pre-state)
 	}
